@@ -40,7 +40,13 @@ EXPLANATION = (
     "method image of it (a key that drops the alleged prefix lets 'ro.'+writecap return the cached writeable node of the "
     "bare cap), followed through all reaching definitions of the key; (15) the string create_from_cap hands to "
     "uri.from_string is one of the given caps itself and UnknownNode receives (writecap, readcap) themselves in their own "
-    "slots, never a derived string. "
+    "slots, never a derived string; "
+    "(16) from_string and helpers, path by path with every local known as a value (copies share it; made from another value by "
+    "cutting its front - a slice [k:], k > 0, removeprefix - or in some other way): where an alleged prefix was found, a helper "
+    "or recursive call whose result is returned - a second entry into the kind dispatch, which is given only deep_immutable and "
+    "decides (5) from scratch - is handed the very string the prefix was found on, never the cut string or a value made from "
+    "it (a percent-decoding / whitespace retry of the already-stripped string forgets 'ro.'/'imm.'); a retry by looping back "
+    "inside the function is already (5): what was found stays found. "
     "Prefix tests are read path-wise in all of these: `X.startswith((P, Q))` is `P or Q` - one of them on its true edge "
     "(enough where some alleged prefix must have been found; both possible where a found prefix forbids something, until a "
     "later test of the same string tells them apart), neither on its false edge; 'imm.' and 'ro.' exclude each other. "
@@ -49,9 +55,12 @@ EXPLANATION = (
     "the dispatch prefix literal matches the class parsed (init_from_string's own STRING_RE rejects a mismatch), the exact "
     "slices taken in UnknownNode.__init__ / strip_prefix_for_ro when a prefix is exchanged or dropped, that opaque UnknownNodes (rw_uri = ro_uri = None) record an error, that "
     "DirectoryNode raises the recorded error, forward-compatibility behaviour of the x-tahoe-future-test caps, which nodes "
-    "create_from_cap chooses to remember (only the key discipline is decided; a key built by a function call other than "
-    "the known lossy string methods stops the analysis with exit 2 rather than being judged) and its blacklist handling.")
-TECHNIQUE = "static analysis: def-use dependence of constructor arguments, constant tables cross-checked, CFG dominance / small abstract interpretation (copies of the given caps, prefix/truth facts per path) in from_string and UnknownNode.__init__, provenance of from_string's return values through reaching definitions and helper calls, path-wise monitors (refusal -> error set; prefix found -> prefix cut; parse error examined -> ro_uri stored), injectivity of the node-cache key in the parsed string over all reaching definitions"
+    "create_from_cap chooses to remember (only the key discipline is decided; a key built by a call of a package function, a method of the node maker or a "
+    "nested function is followed into the callee - each of its returns must be one of the strings it was given, whole; a return "
+    "that is a part / image of a given string is reported - any other call stops the analysis with exit 2 rather than being "
+    "judged) and its blacklist handling; in (16) a string handed on that was made from the whole tested string by a call the "
+    "analysis cannot see through (unquote(u)) stops the analysis with exit 2: whether it keeps the prefix is value-level.")
+TECHNIQUE = "static analysis: def-use dependence of constructor arguments, constant tables cross-checked, CFG dominance / small abstract interpretation (copies of the given caps, prefix/truth facts per path) in from_string and UnknownNode.__init__, provenance of from_string's return values through reaching definitions and helper calls, path-wise monitors (refusal -> error set; prefix found -> prefix cut; parse error examined -> ro_uri stored), injectivity of the node-cache key in the parsed string over all reaching definitions and through the package functions that build it; value provenance (whole / cut / derived) of the string handed to every re-entry of the parse after a prefix was found"
 
 URI_MOD = "allmydata.uri"
 SECRET_FOR_RO = {"writekey"}
@@ -401,6 +410,7 @@ class _ParseWalk:
     def __init__(self, idx, byq):
         self.idx, self.byq = idx, byq
         self.sites, self.lost, self.leaves = [], [], []
+        self.reentries = []      # (fn, ctx param, node, call, callee, callee's ctx param): the kind dispatch is (re-)entered
         self.funcs = {}          # qual -> (fn, ctx param)
         self._done = set()
 
@@ -509,6 +519,7 @@ class _ParseWalk:
                 raise AnalysisError("%s calls %s with */** arguments: cannot follow the context" % (fn.qual, tgt.name))
             carries = [p for (p, a) in bound if p is not None and fnorm.norm(n, a) == di]
             if len(carries) == 1:
+                self.reentries.append((fn, di, n, e, tgt, carries[0]))
                 return self.walk(tgt, carries[0])
             if any(di in depends_on(fn, a) for (_p, a) in bound):
                 raise AnalysisError("%s passes its %s context to %s only in a derived form: cannot follow" % (
@@ -575,8 +586,9 @@ class _CapFlow:
     inj(n, e)    - is `e` an injective function of a cap string: leaves (whole cap values it contains), lossy (parts /
                    many-to-one transformations of a cap it is made from), unknown (cannot classify)."""
 
-    def __init__(self, fn, caps):
+    def __init__(self, fn, caps, idx=None, depth=0):
         self.fn, self.caps = fn, tuple(caps)
+        self.idx, self.depth = idx, depth
         self.cfg = fn.cfg()
         self.fnorm = FlowNorm(fn)
         self.rd = self.fnorm.rd
@@ -755,8 +767,91 @@ class _CapFlow:
         if self._transforms(e):
             res["lossy"].append((n, e, "only a part of" if isinstance(e, ast.Subscript) else "a many-to-one image of"))
             return res
+        if isinstance(e, ast.Call) and self._through_call(n, e, seen, res):
+            return res
         res["unknown"].append((n, e))
         return res
+
+    # -- a key made by a function of the package: what that function returns, in terms of the strings it is given
+    def _callee(self, e):
+        """The package function / method of the same class a call runs, with its parameters (self dropped); else None."""
+        f = e.func
+        tgt = None
+        if isinstance(f, ast.Name):
+            g = self.fn
+            while g is not None and tgt is None:
+                tgt = g.nested.get(f.id)
+                g = g.parent
+        if tgt is None and isinstance(f, ast.Attribute) and isinstance(f.value, ast.Name) and f.value.id in ("self", "cls"):
+            g = self.fn
+            while g is not None and g.cls is None:
+                g = g.parent
+            tgt = g.cls.lookup(f.attr) if g is not None else None
+        if tgt is None and self.idx is not None:
+            try:
+                tgt = self.idx.resolve_expr(self.fn.module, f)
+            except Exception:
+                tgt = None
+        if not isinstance(tgt, FuncInfo) or isinstance(tgt.node, ast.Lambda):
+            return None
+        return tgt
+
+    def _through_call(self, n, e, seen, res):
+        """`e` is a call of a function of the package that is handed (something made from) the cap: the call is an
+        injective function of the cap iff every value the callee may return is one of the strings it was given, whole
+        (then: what the caller passed there); a return that is a part / many-to-one image of a given string makes the key
+        lossy - the callee can drop an alleged prefix.  False when the call cannot be followed."""
+        tgt = self._callee(e)
+        if tgt is None or self.depth >= 3:
+            return False
+        if any(isinstance(a, ast.Starred) for a in e.args) or any(kw.arg is None for kw in e.keywords):
+            return False
+        a_ = tgt.node.args
+        if a_.vararg or a_.kwarg:
+            return False
+        ps = first_positional_params(tgt)
+        bound = {}
+        for i, a in enumerate(e.args):
+            if i >= len(ps):
+                return False
+            bound[ps[i]] = a
+        for kw in e.keywords:
+            if kw.arg not in tgt.params or kw.arg in bound:
+                return False
+            bound[kw.arg] = kw.value
+        if isinstance(e.func, ast.Attribute) and self.dep(e.func.value) and not (
+                isinstance(e.func.value, ast.Name) and e.func.value.id in ("self", "cls")):
+            return False                                # a method of something made from the cap: not followed
+        carrying = [p_ for p_, a in bound.items() if self.dep(a)]
+        if not carrying:
+            return False
+        sub = _CapFlow(tgt, carrying, self.idx, self.depth + 1)
+        reach = sub.cfg.reachable_nodes()
+        rets = [rn for rn in sub.cfg.find(is_return) if rn.id in reach and rn.ast.value is not None]
+        if not rets:
+            return False
+        whole, lossy, unknown, steps = set(), [], [], 0
+        for rn in rets:
+            sr = sub.inj(rn, rn.ast.value)
+            steps += sr["steps"]
+            lossy += [(rn, x, why) for (_dn, x, why) in sr["lossy"]]
+            unknown += sr["unknown"]
+            for (v, _dn, x) in sr["leaves"]:
+                if not v.startswith("p:") or v[2:] not in bound:
+                    unknown.append((rn, x))
+                else:
+                    whole.add(v[2:])
+        res["steps"] += steps
+        if lossy:
+            (rn, x, why) = lossy[0]
+            res["lossy"].append((n, e, "(through %s, which may return %s - %s the string it is given) %s" % (
+                tgt.name, src(tgt, x), why, why)))
+            return True
+        if unknown:
+            return False
+        for p_ in sorted(whole):
+            self.inj(n, bound[p_], seen, res)
+        return True
 
     def _transforms(self, e):
         """A slice / item / lossy string method applied to a value that carries the cap."""
@@ -1720,7 +1815,7 @@ def run(ctx: Context):
             ps = first_positional_params(fn)
             if len(ps) < 2:
                 raise AnchorVanished("create_from_cap(writecap, readcap, ..) signature changed")
-            _cw["w"] = _CapFlow(fn, ps[:2])
+            _cw["w"] = _CapFlow(fn, ps[:2], idx)
         return _cw["w"]
 
     with ctx.rule("C16.14", "R6", "create_from_cap: every key under which a node is looked up or remembered in a container "
@@ -1816,3 +1911,211 @@ def run(ctx: Context):
                         "a cap of the write slot is published as the node's read-only cap"))
         if not n_un:
             raise AnchorVanished("create_from_cap no longer builds an UnknownNode")
+
+    # -- 16. a second entry into the kind dispatch sees what the first one established -----------------------
+    # from_string (and every helper it returns through) decides writeable / mutable from exactly two inputs: the
+    # deep_immutable context and the alleged prefix at the front of the string it is given.  A helper - or from_string
+    # itself, called again - is given the context unchanged (C16.9) and C16.5 is then decided inside it, from scratch.
+    # That is sound only if the string handed on still carries the prefix this call has found and cut off: a retry /
+    # fallback that re-parses the already-cut string (or anything made from it) starts again with
+    # can_be_writeable = can_be_mutable = not deep_immutable, and 'ro.' + <encoded writecap> comes back writeable.
+    with ctx.rule("C16.16", "R3", "from_string (and helpers): on every path on which an alleged 'imm.'/'ro.' prefix was "
+                  "found, a helper or recursive call whose result is returned (a second entry into the kind dispatch, "
+                  "given only deep_immutable) is handed the very string the prefix was found on, whole - never the "
+                  "string cut behind the prefix or a value made from the cut string: the narrowed flags do not travel "
+                  "with the call, so the constraint would be lost on the retry", expected=2) as r:
+        pw = parse_walk()
+        calls_by_fn = {}
+        for (fn, di, n, e, tgt, tdi) in pw.reentries:
+            calls_by_fn.setdefault(fn.qual, []).append((n, e, tgt, tdi))
+        n_pt = 0
+
+        def cap_params(tgt, tdi):
+            """The parameters of a parse function that reach the strings its prefix / kind tests examine (None: it has
+            no such test of its own - it only passes the string on)."""
+            subj = set()
+            for tn in tgt.cfg().nodes:
+                pt = _prefix_test(F, tgt, tn, PREFIX)
+                if pt is not None:
+                    subj.add(pt[0])
+                elif _kind_members(F, tgt, tn, PREFIX) is not None and isinstance(tn.ast.func.value, ast.Name):
+                    subj.add(tn.ast.func.value.id)
+            deps = set()
+            for x in subj:
+                deps |= depends_on(tgt, ast.Name(id=x, ctx=ast.Load()))
+            ps = [p for p in first_positional_params(tgt) if p != tdi and p in deps]
+            return ps or None
+
+        for q in sorted(pw.funcs):
+            (fn, di) = pw.funcs[q]
+            cfg = fn.cfg()
+            pts = {n.id: _prefix_test(F, fn, n, PREFIX) for n in cfg.nodes}
+            pts = {k: v for k, v in pts.items() if v is not None}
+            for nid in sorted(pts):
+                n_pt += 1
+                r.site(fn, cfg.nodes[nid].ast, "%s prefix test" % "/".join(repr(PREFIX[c]) for c in pts[nid][1]))
+            calls = calls_by_fn.get(q, [])
+            if not pts or not calls:
+                continue
+
+            # Values, path by path.  Every local made from a parameter is (vid, cuts, vias): vid names the value (copies
+            # share it), cuts = the values it was made from by dropping their front (a slice [k:], k > 0, removeprefix)
+            # possibly followed by anything else, vias = the values it was made from in any other way.  Prefix facts
+            # (_pfx_learn) are kept per value, so they survive the re-binding of the tested variable.
+            def desc(env, e, nid, fn=fn):
+                if isinstance(e, ast.Name):
+                    return env.get(e.id)
+                if isinstance(e, ast.NamedExpr):
+                    return desc(env, e.value, nid)
+                cut_of = None
+                if isinstance(e, ast.Subscript) and isinstance(e.slice, ast.Slice) and e.slice.lower is not None \
+                        and e.slice.step is None:
+                    try:
+                        lo = F.fold(e.slice.lower, fn.module, None)
+                    except NotConstant:
+                        lo = None
+                    if isinstance(lo, int) and lo > 0:
+                        cut_of = e.value
+                elif isinstance(e, ast.Call) and isinstance(e.func, ast.Attribute) and e.func.attr == "removeprefix" \
+                        and len(e.args) == 1 and not e.keywords:
+                    try:
+                        pv = F.fold(e.args[0], fn.module, None)
+                    except NotConstant:
+                        pv = None
+                    if isinstance(pv, bytes) and pv:
+                        cut_of = e.func.value
+                vid = "d:%s:%s" % (nid, norm_plain(e))
+                if cut_of is not None:
+                    d = desc(env, cut_of, nid)
+                    if d is None:
+                        return None
+                    return (vid, d[1] | {d[0]}, d[2])
+                ops = [env[x.id] for x in own_nodes(e) if isinstance(x, ast.Name) and x.id in env]
+                if not ops:
+                    return None
+                cuts, vias = frozenset(), frozenset()
+                for d in ops:
+                    cuts |= d[1]
+                    vias |= d[2] | {d[0]}
+                if isinstance(e, ast.BinOp) and isinstance(e.op, ast.Add):
+                    # an alleged prefix put (back) in front: no longer "the string without its prefix"
+                    for o in (e.left, e.right):
+                        try:
+                            ov = F.fold(o, fn.module, None)
+                        except NotConstant:
+                            continue
+                        if isinstance(ov, bytes) and any(ov.startswith(pv) for pv in PREFIX.values()):
+                            cuts, vias = frozenset(), vias | cuts
+                return (vid, cuts, vias)
+
+            def transfer(n, lab, nxt, st, fn=fn, pts=pts, desc=desc):
+                env_t, facts = st
+                if n.id in pts and isinstance(lab, tuple) and lab[0] in ("T", "F"):
+                    (pv, names) = pts[n.id]
+                    d = dict(env_t).get(pv)
+                    if d is not None:
+                        facts = _pfx_learn(facts, d[0], names, lab[0] == "T", DISJOINT)
+                        if facts is None:
+                            return None
+                stored = [x for x in node_stores(n) if "." not in x and not x.endswith("[]")]
+                if stored:
+                    env = dict(env_t)
+                    new = {}
+
+                    def bind(t, v):
+                        if isinstance(t, ast.Name):
+                            new[t.id] = desc(env, v, n.id) if v is not None else None
+                        elif isinstance(t, (ast.Tuple, ast.List)) and isinstance(v, (ast.Tuple, ast.List)) \
+                                and len(t.elts) == len(v.elts):
+                            for tt, vv in zip(t.elts, v.elts):
+                                bind(tt, vv)
+                    if n.kind == "stmt" and isinstance(n.ast, (ast.Assign, ast.AnnAssign)) and n.ast.value is not None:
+                        for t in (n.ast.targets if isinstance(n.ast, ast.Assign) else [n.ast.target]):
+                            bind(t, n.ast.value)
+                    for x in stored:
+                        if x in new:
+                            d = new[x]
+                        else:
+                            # bound some other way (loop target, `with .. as`, +=, walrus): made from whatever the node reads
+                            ops = [env[y.id] for e_ in node_exprs(n) for y in own_nodes(e_)
+                                   if isinstance(y, ast.Name) and y.id in env]
+                            d = None
+                            if ops:
+                                cuts, vias = frozenset(), frozenset()
+                                for o in ops:
+                                    cuts |= o[1]
+                                    vias |= o[2] | {o[0]}
+                                d = ("d:%s:%s" % (n.id, x), cuts, vias)
+                        if d is None:
+                            env.pop(x, None)
+                        else:
+                            env[x] = d
+                    env_t = tuple(sorted(env.items()))
+                return (env_t, facts)
+
+            init = (tuple(sorted((p, ("p:" + p, frozenset(), frozenset())) for p in fn.params if p != di)), frozenset())
+            visited, parent = explore(cfg, init, transfer)
+            r.count(len(visited))
+            by_node = {}
+            for (nid, st) in sorted(visited, key=lambda x: (x[0], str(x[1][0]), _pfx_key(x[1][1]))):
+                by_node.setdefault(nid, []).append(st)
+            reported = set()
+            for (n, e, tgt, tdi) in calls:
+                if any(isinstance(a, ast.Starred) for a in e.args) or any(kw.arg is None for kw in e.keywords):
+                    raise AnalysisError("%s calls %s with */** arguments" % (fn.qual, tgt.name))
+                tps = first_positional_params(tgt)
+                bound = [(tps[i] if i < len(tps) else None, a) for i, a in enumerate(e.args)]
+                bound += [(kw.arg, kw.value) for kw in e.keywords]
+                cps = cap_params(tgt, tdi)
+                args = [(p_, a) for (p_, a) in bound if p_ != tdi and (cps is None or p_ in cps)]
+                for st in by_node.get(n.id, []):
+                    (env_t, facts) = st
+                    env = dict(env_t)
+                    found = {}
+                    for (v, k, pol) in facts:
+                        if pol:
+                            found.setdefault(v, set()).update(k if isinstance(k, frozenset) else {k})
+                    for V in sorted(found):
+                        which = " or ".join(repr(PREFIX[c]) for c in sorted(found[V]))
+                        holders = sorted(x for x, d in env.items() if d[0] == V)
+                        rels = []
+                        for (p_, a) in args:
+                            d = desc(env, a, n.id)
+                            if d is None:
+                                rels.append(("none", p_, a))
+                            elif d[0] == V:
+                                rels.append(("whole", p_, a))
+                            elif V in d[1]:
+                                rels.append(("cut", p_, a))
+                            elif V in d[2]:
+                                rels.append(("via", p_, a))
+                            else:
+                                rels.append(("none", p_, a))
+                        if cps is None:
+                            rels = [x for x in rels if x[0] != "none"]      # the callee only passes its arguments on
+                        cut = [x for x in rels if x[0] == "cut"]
+                        if cut:
+                            (_k, p_, a) = cut[0]
+                            key = (n.id, which, src(fn, a))
+                            if key in reported:
+                                continue
+                            reported.add(key)
+                            w = witness(cfg, parent, (n.id, st))
+                            r.violation(fn, fn.loc(e), "%s found the alleged prefix %s on %s and then returns %s, a second "
+                                        "parse of %s - a value made from that string with the prefix already cut off - while "
+                                        "%s is given only the %s context: it starts again with writeable/mutable allowed, so "
+                                        "the read-only / immutable constraint the prefix established is lost and a write cap "
+                                        "behind the prefix comes back as a writeable cap object instead of a refusal; a "
+                                        "(re-)entry into the dispatch must be given the string as it was tested (path: %s)" % (
+                                            fn.name, which, "/".join(holders) or "the given string", src(fn, e), src(fn, a),
+                                            tgt.name, di, w.brief(14)), w)
+                        elif any(x[0] == "whole" for x in rels):
+                            continue
+                        else:
+                            via = [x for x in rels if x[0] == "via"]
+                            raise AnalysisError("%s found the alleged prefix %s and then returns %s: cannot tell whether %s "
+                                                "still carries that prefix" % (
+                                                    fn.qual, which, src(fn, e),
+                                                    src(fn, via[0][2]) if via else "any argument of the call"))
+        if not n_pt:
+            raise AnchorVanished("no 'imm.'/'ro.' prefix test in from_string or its helpers")
